@@ -166,9 +166,9 @@ def hand_specs():
     # several inline schemas: a qualified one first, then schemas that declare no form default (XSD default:
     # unqualified local elements / attributes), then an explicitly unqualified one
     s = copy.deepcopy(base)
-    s["schemas"] = [{"ns": "urn:types", "form": "qualified", "attr_form": "qualified"},
+    s["schemas"] = [{"ns": "urn:types", "form": "qualified", "attr_form": "qualified", "n_form": "unqualified"},
                     {"ns": "urn:types/b", "form": None, "attr_form": None},
-                    {"ns": "urn:third", "form": "unqualified", "attr_form": None}]
+                    {"ns": "urn:third", "form": "unqualified", "attr_form": None, "n_form": "qualified"}]
     s["ref_schema"] = {"Eqa": 0, "EqaR": 1, "Eqb": 1, "EqbR": 2, "EH9": 0, "EF9": 1, "TRec9": 1}
     hm9 = {"name": "Hdr9", "parts": [{"name": "h", "kind": "element", "ref": "EH9"}]}
     fm9 = {"name": "F9", "parts": [{"name": "fault", "kind": "element", "ref": "EF9"}]}
@@ -1268,8 +1268,8 @@ def payload_forms(spec, op, root):
             ref = typed[q.localname]
         if ref is None:
             continue
-        want = G.child_ns(spec, ref)
         for c in el:
+            want = G.child_ns(spec, ref, etree.QName(c).localname)
             if etree.QName(c).namespace != want:
                 return f"[forms] child {c.tag} of {el.tag}: schema {G.ref_ns(spec, ref)} declares elementFormDefault={G.schemas_of(spec)[G.schema_index(spec, ref)].get('form')!r}, so its local elements are in namespace {want!r}"
         wanta = G.attr_ns(spec, ref)
@@ -1306,7 +1306,7 @@ def canned_response(spec, op, fault=None, fault_with_header=False, wrapper=None)
 
     def child(ref, name, content):
         # a local element is namespace-qualified only if ITS schema declares elementFormDefault="qualified"
-        cns = G.child_ns(spec, ref)
+        cns = G.child_ns(spec, ref, name)
         return f'<c:{name} xmlns:c="{cns}">{content}</c:{name}>' if cns else f'<{name} xmlns="">{content}</{name}>'
 
     def elem(ref):
